@@ -21,7 +21,7 @@ RULE = ("S: operation histories over a pool of genuine and hostile certificates 
         "the independent checker evaluated at least one stored certificate / a verdict was compared.")
 ASSUMPTIONS = ["asn1tools' OER codec and the ASN.1 module are trusted to produce the to-be-signed images; python-ecdsa is trusted",
                "only roots passed to add_root_certificate by the harness ('the operator') count as configured"]
-REQUIRED_COUNTERS = ["S.ops", "S.store_certs_rechecked", "S.hostile_offers", "S.genuine_admitted", "S.messages_carrying_a_certificate", "V.messages", "V.accepted", "V.must_reject_checked", "V.directed_stale_window_sequences", "I.issued", "I.must_not_verify_checked", "I.must_not_verify_checked[multi-group-issuer]"]
+REQUIRED_COUNTERS = ["S.ops", "S.store_certs_rechecked", "S.hostile_offers", "S.genuine_admitted", "S.messages_carrying_a_certificate", "V.messages", "V.accepted", "V.must_reject_checked", "V.directed_stale_window_sequences", "I.issued", "I.must_not_verify_checked", "I.must_not_verify_checked[multi-group-issuer]", "I.sub_ca_under_explicit_issuer_verified"]
 
 
 def craft_signed(own, backend, psid, payload, gen_time_us, signer="certificate", extra=None, tamper=None):
@@ -306,7 +306,12 @@ def run_i(spec, res):
                 p = rng.choice(("all", (36, 37, 638), (36, 99), (36,), (638, 37)))
                 case["levels"].append({"ca_perm": p if p == "all" else list(p)})
                 try:
-                    sub = OwnCertificate.initialize_certificate(be, pki.aa_tbs(now, p, f"ca{lvl}", chain=rng.choice((1, 2, 3))), issuer)
+                    # a CA certificate that also holds an application permission (of a PSID it may issue): under an issuer with
+                    # explicit permissions the issuing API only gets past its permission check with such a certificate
+                    app = (p[0],) if p != "all" and rng.random() < 0.6 else None
+                    if app:
+                        res.count("I.sub_ca_with_application_permission")
+                    sub = OwnCertificate.initialize_certificate(be, pki.aa_tbs(now, p, f"ca{lvl}", chain=rng.choice((1, 2, 3)), app_psids=app), issuer)
                 except Exception as e:  # noqa
                     case["levels"][-1]["raised"] = type(e).__name__
                     dead = True
@@ -320,7 +325,13 @@ def run_i(spec, res):
                 need = pki.needed_psids(sub.certificate)
                 allowed = pki.issuer_allows(issuer.certificate, need)
                 # remaining chain length of the issuer for the PSIDs the subject asks for (per PSID group of the issuer)
-                ib = pki.issuing_budget(issuer.certificate, pki.needed_psids({"toBeSigned": pki.aa_tbs(now, p)}))
+                # remaining chain length for the permissions the ISSUED certificate carries (the API may grant less than was
+                # asked: exhausted or uncovered groups are dropped); a certificate left without any permission is judged on
+                # what was asked for and the issuer covers
+                ib = pki.issuing_budget(issuer.certificate, need)
+                if not need:
+                    req = [q_ for q_ in pki.needed_psids({"toBeSigned": pki.aa_tbs(now, p, app_psids=app)}) if pki.issuing_budget(issuer.certificate, [q_]) >= 0]
+                    ib = pki.issuing_budget(issuer.certificate, req) if req else max((g_["minChainLength"] for g_ in issuer.certificate["toBeSigned"].get("certIssuePermissions", [])), default=0)
                 case["levels"][-1].update(verifies=verifies, allowed=allowed, issuer_budget=ib)
                 multi = len(issuer.certificate["toBeSigned"].get("certIssuePermissions", [])) > 1
                 if not allowed or ib < 1:
@@ -330,6 +341,8 @@ def run_i(spec, res):
                     if verifies:
                         res.violation(f"C09:issued-ca-certificate-verifies-although-{'permissions-not-contained' if not allowed else 'chain-length-exhausted'}"
                                       f"{'[issuer-with-several-psid-groups]' if multi else ''}", f"{case}", case)
+                if verifies and not any(g_["subjectPermissions"][0] == "all" for g_ in issuer.certificate["toBeSigned"].get("certIssuePermissions", [])):
+                    res.count("I.sub_ca_under_explicit_issuer_verified")
                 if verifies:
                     for q in sub.certificate["toBeSigned"].get("certIssuePermissions", []):
                         qp = ["all"] if q["subjectPermissions"][0] == "all" else [e["psid"] for e in q["subjectPermissions"][1]]
